@@ -328,6 +328,11 @@ def run_harness(binary, mode, inputs, timeout=1200, extra_env=None, tag=None):
                     obs.append(json.loads(line))
     if rc != 0 or len(obs) != len(inputs):
         raise HarnessError(f"harness run mode={mode} rc={rc} got {len(obs)}/{len(inputs)} observations:\n" + o[-4000:])
+    for f_ in (fin, fout):      # kept only when the run failed (disk space)
+        try:
+            os.remove(f_)
+        except OSError:
+            pass
     return obs
 
 
